@@ -59,6 +59,7 @@ func checkSilentFacts(c ExecCase) (v *Violation, f silentFacts) {
 	}
 	open := pr.orderOpen()
 	f.open = open
+	kv2 := pr.chainedKeyvalue() // ids of chained .keyvalue() steps differ from run to run (D30, C16's statement)
 	vb := pr.observe(false)
 	si := pr.observe(true)
 	type pair struct {
@@ -110,14 +111,14 @@ func checkSilentFacts(c ExecCase) (v *Violation, f silentFacts) {
 			// (b) a run that succeeds without WithSilent returns the identical result with it
 			same := p.s.Class == EOK && p.s.Bool == p.v.Bool
 			if same {
-				a, b := RenderSeq(p.v.Items, false), RenderSeq(p.s.Items, false)
+				a, b := RenderSeq(p.v.Items, kv2), RenderSeq(p.s.Items, kv2)
 				if open {
 					same = sameMultiset(a, b)
 					if p.name == "First" {
 						same = true // any member may come first
 					}
 				} else {
-					same = sameSeq(a, b) && Render(p.v.Item, false) == Render(p.s.Item, false)
+					same = sameSeq(a, b) && Render(p.v.Item, kv2) == Render(p.s.Item, kv2)
 				}
 			}
 			if open && (p.name == "Exists" || p.name == "ExistsOrMatch") && vb.Query.Class != EOK {
